@@ -395,6 +395,8 @@ fn c08(ctx: &Ctx) -> i32 {
     let rule = "generated graph with shared dependencies x requested multiset (duplicates, dependency together with dependent) x schedule (one-shot; some scripts fail, some runs interrupted); exactly-once multiset over the closure on natural success, at-most-once always; non-trivial = some target has >= 2 requesters; distinct = shape classes x (kind, #requests before completion, #after) per shared target";
     sim_check(ctx, &mut report, params, ctx.tier.pick(150_000, 2_000_000), oracle_c08, rule, 8);
     bb_replays(ctx, &mut report);
+    bb_part(ctx, &mut report, "c08", BbParams { max_n: 9, failures: true, services: true, rendezvous: false }, ctx.tier.pick(64, 400),
+        "same, every build declares an input directory and rewrites a file in the input directory of one of its finished dependencies while it runs: a one-shot run watches nothing, so no target may run twice", 308);
     bb_part(ctx, &mut report, "c08", BbParams { max_n: 8, failures: true, services: true, rendezvous: false }, ctx.tier.pick(96, 600),
         "real binary, generated graphs, duplicate / both-spelling requests: no target started twice, nothing outside the closure started, exit 0 => exactly one start+finish per closure build; non-trivial = a target with >= 2 requesters", 108);
     report.finish()
